@@ -8,6 +8,8 @@ import (
 	"fmt"
 	"golang.org/x/sys/unix"
 	"os"
+	"strconv"
+	"strings"
 	"syscall"
 	"time"
 
@@ -27,6 +29,33 @@ func (allowAll) CheckWrite(string) ptracer.TraceAction   { return ptracer.TraceA
 func (allowAll) CheckStat(string) ptracer.TraceAction    { return ptracer.TraceAllow }
 func (allowAll) CheckSyscall(string) ptracer.TraceAction { return ptracer.TraceAllow }
 
+// stepper is a tracer handler that parks the tracer at the n-th debug message containing pat: the controller is killed
+// while its tracer stands exactly at that step
+type stepper struct {
+	pat, point string
+	n, seen    int
+	pgid       int
+}
+
+func (s *stepper) Handle(*ptracer.Context) ptracer.TraceAction { return ptracer.TraceAllow }
+func (s *stepper) Debug(v ...interface{}) {
+	msg := fmt.Sprint(v...)
+	if s.pgid == 0 && strings.HasPrefix(msg, "tracer started") && len(v) > 1 {
+		if p, ok := v[1].(int); ok {
+			s.pgid = p
+		}
+	}
+	if strings.Contains(msg, s.pat) {
+		s.seen++
+		if s.seen == s.n {
+			announce(map[string]any{"point": s.point, "pid": s.pgid, "step": msg})
+			for {
+				time.Sleep(time.Hour)
+			}
+		}
+	}
+}
+
 func announce(m map[string]any) {
 	b, _ := json.Marshal(m)
 	fmt.Println(string(b))
@@ -42,6 +71,17 @@ func main() {
 		}
 	}
 	tree := []string{"/vb/probe_target", "tree", "3", token}
+	if strings.HasPrefix(point, "ptrace_step:") {
+		spec := strings.TrimPrefix(point, "ptrace_step:")
+		i := strings.LastIndexByte(spec, '#')
+		n, _ := strconv.Atoi(spec[i+1:])
+		st := &stepper{pat: spec[:i], n: n, point: point}
+		fr := &forkexec.Runner{Args: []string{hx.Target(), "tree", "3", token}, Env: []string{}, Ptrace: true, Seccomp: hx.AllowAll().SockFprog(), WorkDir: "/"}
+		t := ptracer.Tracer{Handler: st, Runner: fr, Limit: runner.Limit{TimeLimit: time.Hour, MemoryLimit: 1 << 40}}
+		t.Trace(context.Background())
+		announce(map[string]any{"err": "the tracer never reached the step " + spec})
+		forever()
+	}
 	switch point {
 	case "ptrace_running":
 		r := &ptrace.Runner{Args: []string{hx.Target(), "tree", "3", token}, Env: []string{}, WorkDir: "/",
@@ -51,6 +91,15 @@ func main() {
 				return nil
 			}}
 		r.Run(context.Background())
+		forever()
+	case "ptrace_after_run":
+		// a traced run whose descendants left the process group (own sessions) has ended; the idle controller is killed afterwards
+		r := &ptrace.Runner{Args: []string{hx.Target(), "tree", "2", token, "setsid"}, Env: []string{}, WorkDir: "/",
+			Limit: runner.Limit{TimeLimit: time.Hour, MemoryLimit: 1 << 40}, Seccomp: hx.AllowAll(), Handler: allowAll{}}
+		ctx, cancel := context.WithTimeout(context.Background(), 300*time.Millisecond)
+		r.Run(ctx)
+		cancel()
+		announce(map[string]any{"point": point})
 		forever()
 	case "ptrace_in_sync":
 		// killed while the sync callback of a ptrace run is executing: the child is held before exec, nobody will answer it
